@@ -586,6 +586,10 @@ fn plan(corpus: &Corpus, thorough: bool, seed: u64, scale: f64) -> Vec<JobKind> 
     for _ in 0..nsynth {
         jobs.push(JobKind::Synth(rng.next()));
     }
+    // fonts just below, at and above the size limit (parameters below SIZE_BAND.len() are reserved for them)
+    for k in 0..SIZE_BAND.len() {
+        jobs.push(JobKind::Synth(k as u64));
+    }
     jobs
 }
 
@@ -1246,7 +1250,24 @@ fn real(rng: &mut Rng) -> String {
     }
 }
 
+/// Fonts at the size limit of the format (32767 words): one character and a lig/kern program of n KRN
+/// steps with pairwise distinct kern values, so that nl = nk = n and the file has 30 + 2n words.
+/// n = 16368 is the largest font that fits; above it pl_to_tfm must still return something readable.
+const SIZE_BAND: [usize; 8] = [16360, 16368, 16369, 16370, 16376, 16383, 16384, 16390];
+
+fn size_band_pl(n: usize) -> String {
+    let mut s = String::from("(CHARACTER C A (CHARWD R 1.0))\n(LIGTABLE\n (LABEL C A)\n");
+    for r in 0..n {
+        s.push_str(&format!(" (KRN O {:o} R {}.{:03})\n", r % 256, r / 1000, r % 1000));
+    }
+    s.push_str(" (STOP)\n )\n");
+    s
+}
+
 fn synth_pl(param: u64, deep: bool) -> String {
+    if (param as usize) < SIZE_BAND.len() {
+        return size_band_pl(SIZE_BAND[param as usize]);
+    }
     let mut rng = Rng::new(param);
     let mut s = String::new();
     let mut push = |s: &mut String, line: String| {
